@@ -97,16 +97,16 @@ var opNames = map[Op]string{
 }
 
 type Term struct {
-	id   int
-	op   Op
-	sort Sort
-	args []*Term
-	val  *big.Int // OConst: value (BV: unsigned normalised; Bool: 0/1)
-	name string   // OVar / OApp
-	p1   int      // extract hi / ext amount / int2bv width
-	p2   int      // extract lo
-	hasInt bool   // some subterm has sort Int
-	hasMix bool   // some subterm converts between Int and BitVec (bv2nat / int2bv)
+	id     int
+	op     Op
+	sort   Sort
+	args   []*Term
+	val    *big.Int // OConst: value (BV: unsigned normalised; Bool: 0/1)
+	name   string   // OVar / OApp
+	p1     int      // extract hi / ext amount / int2bv width
+	p2     int      // extract lo
+	hasInt bool     // some subterm has sort Int
+	hasMix bool     // some subterm converts between Int and BitVec (bv2nat / int2bv)
 }
 
 // UF describes an uninterpreted function symbol.
